@@ -60,6 +60,18 @@ theorem ord_lt_iff (start : Sched.Date) (h : validDate start) (i j : Nat) :
     ordOf (dateOf start i) < ordOf (dateOf start j) ↔ i < j := by
   rw [ord_dateOf start h i, ord_dateOf start h j]; omega
 
+theorem ord_injective (start : Sched.Date) (h : validDate start) (i j : Nat)
+    (he : ordOf (dateOf start i) = ordOf (dateOf start j)) : i = j := by
+  rw [ord_dateOf start h i, ord_dateOf start h j] at he; omega
+
+/-- a simulation continued from day `a` runs on the same calendar (run histories, follow-on runs) -/
+theorem dateOf_add (start : Sched.Date) (a b : Nat) : dateOf start (a + b) = dateOf (dateOf start a) b := by
+  induction b with
+  | zero => rfl
+  | succ b ih =>
+    show nextDate (dateOf start (a + b)) = nextDate (dateOf (dateOf start a) b)
+    rw [ih]
+
 /-- the ordinal order and the calendar order (year, month, day) agree on the simulated days -/
 theorem ord_lt_iff_dateLt (start : Sched.Date) (h : validDate start) (i j : Nat) :
     ordOf (dateOf start i) < ordOf (dateOf start j) ↔ dateLt (dateOf start i) (dateOf start j) := by
